@@ -39,6 +39,15 @@ pub fn verify_stark_proof<
     verifier_circuit_fri_params: Option<FriParams>,
 ) -> Result<()> {
     ensure!(proof_with_pis.public_inputs.len() == S::PUBLIC_INPUTS);
+    // The challenges are derived from the proof, so its shape has to be checked first.
+    validate_proof_shape(
+        &stark,
+        &proof_with_pis.proof,
+        &proof_with_pis.public_inputs,
+        config,
+        0,
+        0,
+    )?;
     let mut challenger = Challenger::<F, C::Hasher>::new();
 
     let challenges = proof_with_pis.get_challenges(
@@ -230,6 +239,18 @@ where
     C: GenericConfig<D, F = F>,
     S: Stark<F, D>,
 {
+    // `recover_degree_bits` reads the first Merkle path of the first query round.
+    let first_path_len = proof
+        .opening_proof
+        .query_round_proofs
+        .first()
+        .and_then(|round| round.initial_trees_proof.evals_proofs.first())
+        .map(|(_, merkle_proof)| merkle_proof.siblings.len())
+        .ok_or_else(|| anyhow!("Missing initial Merkle proof"))?;
+    ensure!(first_path_len <= F::TWO_ADICITY);
+    let lde_bits = config.fri_config.cap_height + first_path_len;
+    ensure!(config.fri_config.rate_bits <= lde_bits && lde_bits <= F::TWO_ADICITY);
+
     let degree_bits = proof.recover_degree_bits(config);
 
     let StarkProof {
@@ -326,6 +347,7 @@ where
         ensure!(auxiliary_polys_cap.is_none());
         ensure!(auxiliary_polys.is_none());
         ensure!(auxiliary_polys_next.is_none());
+        ensure!(ctl_zs_first.is_none());
     }
 
     Ok(())
